@@ -184,6 +184,17 @@ Proof.
 Qed.
 Print Assumptions C05_descents_distinct.
 
+(* ... and the returned cells themselves are pairwise distinct (their provenance determines the
+   descent): exactly ONE returned cell stands for the located descent *)
+Theorem C05_returned_cells_distinct :
+  forall (T surf P : Type) (tr_empty : T -> bool) (inv : T -> P -> P) (sense : surf -> P -> bool)
+         (s : state T surf) du s' key ks chs,
+  (forall u, NoDup (du_get u du)) ->
+  Paths T surf s du key chs ->
+  Forall2 (Represents T surf P tr_empty inv sense s du s' key) ks chs -> NoDup ks.
+Proof. exact outcome_keys_distinct. Qed.
+Print Assumptions C05_returned_cells_distinct.
+
 Theorem C05_by_universe_lists :
   forall (T : Type) (cells : list (Z * cell T)) u,
   (NoDup (map fst cells) -> NoDup (du_get u (by_universe cells))) /\
